@@ -10,9 +10,10 @@ Oracle   preserve: same type, identical render snapshot, duplication raises noth
 from __future__ import annotations
 
 import copy
+import functools
 import pickle
 
-from hypothesis import HealthCheck, given, seed, settings, strategies as st
+from hypothesis import HealthCheck, Phase, given, seed, settings, strategies as st
 
 from pbt import gen, hist, prog, snap
 from pbt.core import Collector, HarnessError, mksig
@@ -75,6 +76,28 @@ def family_for_menu(family):
     return "table" if family == "table_schema" else family
 
 
+@functools.lru_cache(maxsize=None)
+def method_matrix():
+    """(family, method name) over every family with a menu: each method is reached with the same probability whatever the size of its menu"""
+    out = []
+    for fam in hist.FAMILIES:
+        for name in sorted({s.name for s in hist.menu(fam)}):
+            out.append((fam, name))
+    return out
+
+
+@st.composite
+def matrix_case(draw, family, name):
+    """one or two calls of ONE method on one side of a fresh duplicate; the (family, method) pairs are enumerated, not drawn"""
+    root = draw(hist.root(family))
+    mech = draw(st.sampled_from(MECHS))
+    suffix = []
+    for _ in range(draw(st.integers(1, 2))):
+        st_ = draw(hist.one_of_steps([s for s in hist.menu(family) if s.name == name]))
+        suffix.append([draw(st.sampled_from(["o", "d"])), st_])
+    return {"family": family, "root": root, "mech": mech, "suffix": suffix, "matrix": True}
+
+
 @st.composite
 def cases(draw):
     fams = hist.FAMILIES + EXTRA_FAMILIES * 3
@@ -130,6 +153,7 @@ def check(case, stats=None):
         shared = snap.shared_mutables(o, d)
         if shared:
             out.append((mksig(cname, mech, "shared_container", shared[0]), "containers reachable from both graphs: %r" % shared[:4]))
+    struct0 = {"o": snap.struct_snapshot(o), "d": snap.struct_snapshot(d)}
     cur = {"o": o, "d": d}
     fam = {"o": mf, "d": mf}
     steps = {"o": [], "d": []}
@@ -148,6 +172,14 @@ def check(case, stats=None):
             side = "original" if so != snap0 else "duplicate"
             out.append((mksig(mname, st_[0], mech, "coupled"), "%s.%s on the %s side changed the %s (%s)" % (mname, st_[0], "original" if who == "o" else "duplicate", side, k[:3])))
             return out
+        for w, obj in (("o", o), ("d", d)):
+            # the state itself, not only what the renderings show of it (a shared list may belong to a clause this statement kind never prints)
+            now = snap.struct_snapshot(obj)
+            if now != struct0[w]:
+                diff = snap.struct_diff(struct0[w], now)
+                out.append((mksig(mname, st_[0], mech, "coupled_state"), "%s.%s on the %s side changed the state of the %s: %s" % (
+                    mname, st_[0], "original" if who == "o" else "duplicate", "original" if w == "o" else "duplicate", str(diff)[:300])))
+                return out
         for w in ("o", "d"):
             if cur[w] is not (o if w == "o" else d):
                 tw = snap.render_snapshot(c01.rebuild(root, steps[w], mf))
@@ -181,12 +213,32 @@ def nontrivial(case):
 
 def shards(tier, sd):
     n = 8 if tier == "quick" else 32
-    return [(tier, sd * 1000 + k) for k in range(n)]
+    return [(tier, sd * 1000 + k) for k in range(n)] + [("matrix:" + tier, sd * 1000 + 500 + k) for k in range(8)]
 
 
 def run_shard(shard):
     tier, sd = shard
     col = Collector()
+    if tier.startswith("matrix:"):
+        # every (family, method) pair of every menu, a few generated receivers / arguments / mechanisms each
+        k = sd % 8
+        per = 5 if tier.endswith("quick") else 40
+        pairs = method_matrix()
+        for idx in range(k, len(pairs), 8):
+            family, name = pairs[idx]
+
+            @seed(sd * 1000 + idx)
+            @settings(max_examples=per, database=None, deadline=None, suppress_health_check=list(HealthCheck), report_multiple_bugs=False, phases=[Phase.generate])
+            @given(matrix_case(family, name))
+            def one(case):
+                res = check(case)
+                col.case(case, nontrivial(case), classes=("mech:" + case["mech"], "family:" + case["family"], "matrix"))
+                for sig, detail in res:
+                    col.violation(sig, case, detail)
+
+            one()
+        col.notes["method_matrix_pairs"] = len(pairs)
+        return col
     nex = 400 if tier == "quick" else 4000
 
     @seed(sd)
